@@ -320,7 +320,7 @@ impl<'c, KD: Kind, const N: usize> MapEng<'c, KD, N> {
                         }
                     }
                 }
-                Err(Pk::Overflow) if present.is_none() && full && inserts_if_vacant => {
+                Err(p) if *p != Pk::Injected && present.is_none() && full && inserts_if_vacant => {
                     cx.bump(S::rejected_inserts);
                     cx.bump(S::lib_panics);
                     self.lib_panicked = true;
